@@ -277,7 +277,9 @@ def make_queue(ctx):
     rec.fields["lock_duration"] = SInt(z3.Int("lock_duration"))
     I.st.assume(z3.Int("lock_duration") > 0)
     rec.fields["max_attempts"] = SInt(z3.Int("queue_max_attempts"))
-    rec.fields["_pending"] = I.ops.new_dict()
+    # the in-memory map of messages this process polled and has not acked yet: arbitrary at entry -- one arbitrary entry stands
+    # for "some earlier message is still in flight here" (possibly the very row the candidate query returns)
+    rec.fields["_pending"] = I.ops.new_dict([(SInt(z3.Int("some_pending_message_id")), SNone)])
     return SObj(oid)
 
 
@@ -318,6 +320,10 @@ def _poll_one_post(ctx):
     if not ups:
         goals.append(("none-without-claim", z3.Not(returned)))
         goals.append(("unchanged", _frame(ctx, QT)))
+        # nothing lost / stays deliverable: the queue gives up without a claim attempt only when the candidate query found no row --
+        # never because of something the process remembers about the row
+        fo = [e for e in ctx.st.effects if e.kind == "sql_fetchone" and e.data["table"] == QT]
+        goals.append(("gives-up-only-without-a-candidate", z3.Not(fo[0].data["found"]) if fo else FALSE))
         return goals
     u = ups[0].data
     goals.append(("claim-is-keyed", z3.BoolVal(bool(u.get("pinned")))))
